@@ -20,6 +20,7 @@ type Options struct {
 	Parallel  int
 	KeepFiles bool
 	VacuityTimeoutS int
+	NoRetry   bool // do not retry obligations that timed out (thorough tier: the budget is long already)
 }
 
 type OblResult struct {
@@ -290,6 +291,19 @@ func discharge(fc *FnCtx, o Oblig, opt Options) OblResult {
 		all = false
 	}
 	res := smt.Run(opt.WorkDir, q, solvers, to, all)
+	if !o.Vacuity && res.Status == "timeout" && !opt.NoRetry {
+		// A timeout is no verdict, and on a loaded machine it says little about the
+		// query: try once more, alone in this slot, with six times the budget.
+		longer := to * 6
+		if longer > 90 {
+			longer = 90
+		}
+		if longer > to {
+			if again := smt.Run(opt.WorkDir, q, solvers, longer, all); again.Status != "timeout" || again.Seconds > res.Seconds {
+				res = again
+			}
+		}
+	}
 	r.Raw, r.Solver, r.Seconds, r.Output, r.Values, r.PerSolver = res.Status, res.Solver, res.Seconds, res.Output, res.Values, res.All
 	r.QuerySize = len(q.Body)
 	switch {
